@@ -69,6 +69,7 @@ Profile(p) ==
   CASE p = "A" -> [t |-> 2000,  oc |-> <<>>,       ms |-> TRUE,  m |-> "oops", s |-> 200]
     [] p = "B" -> [t |-> 200,   oc |-> <<13, 1>>,  ms |-> FALSE, m |-> "",     s |-> Unset]
     [] p = "D" -> [t |-> 2000,  oc |-> <<>>,       ms |-> TRUE,  m |-> "",     s |-> 200]   \* a message that is specified - as the empty string
+    [] p = "E" -> [t |-> Unset, oc |-> <<13, 1>>,  ms |-> TRUE,  m |-> "oops", s |-> 409]   \* other codes allowed AND an HTTP status expected
     [] OTHER   -> [t |-> Unset, oc |-> <<13>>,     ms |-> TRUE,  m |-> "oops", s |-> Unset]
 
 EmptyInfo == [h |-> <<>>, t |-> Unset, q |-> <<>>, rq |-> <<>>]
